@@ -13,12 +13,12 @@ LEVEL = 'model_checking'
 BOUNDS = {
     'quick': 'truncate: n<=3, all chi_max/chi_min in 1..n and None, every None-pattern of (svd_min, trunc_cut, degeneracy_tol); '
              'svd_theta / eigh_rho: 2x2, 2x3 blocks with one LAPACK contract stub; TruncationError algebra symbolic',
-    'thorough': 'truncate: n<=4 (n=5 for selected option sets); svd_theta up to 3x3',
+    'thorough': 'truncate: n<=3 with every chi pair (trunc_cut for six chi pairs), n=4 for three chi pairs without trunc_cut; svd_theta up to 3x3, eigh_rho n<=3',
 }
 OUTSIDE = 'float rounding near thresholds; decompose_theta_qr_based (chain of factorisations, DESIGN C07); log is an uninterpreted monotone function'
 STUBS = ['numpy facade for tenpy.linalg.truncation (log -> monotone UF, norm -> sqrt variable)', 'svd_flat / eigh contract stub (svd_theta, eigh_rho cases)']
 ASSUMPTIONS = [
-    'floats are reals', 'spectrum entries are exact zeros or > 1e-100, svd_min > 1e-100 (the 1e-100 clipping region of truncate is outside the claim)',
+    'floats are reals', 'non-zero singular / eigen values returned by LAPACK are larger than 1e-99 times the largest one (svd_theta, eigh_rho cases)', 'spectrum entries are exact zeros or > 1e-100, svd_min > 1e-100 (the 1e-100 clipping region of truncate is outside the claim)',
     'np.log: comparisons between sums of logarithms are rewritten exactly as comparisons of products (degeneracy_tol is given as log of a symbolic ratio > 1); no property of log other than monotonicity and log(xy)=log x+log y is used'
 ]
 
@@ -48,6 +48,8 @@ def setup_symbolic(case):
         V = ctx.fresh_array('V', (k, n), cplx=True)
         for i in range(k - 1):
             ctx.assume(S[i] >= S[i + 1])
+            # relative size of non-zero singular values: truncate() clips at 1e-100 (see ASSUMPTIONS)
+            ctx.assume((S[i + 1] == 0) | (S[i + 1] > 1.e-99 * S[0]))
         rec = np.dot(U * S[np.newaxis, :], V)
         for idx in np.ndindex(m, n):
             ctx.assume_zero(rec[idx] - a[idx])
@@ -67,6 +69,7 @@ def setup_symbolic(case):
         V = ctx.fresh_array('V', (n, n), cplx=True)
         for i in range(n - 1):
             ctx.assume(t[i] <= t[i + 1])
+            ctx.assume((t[i] == 0) | (t[i] > 1.e-99 * t[n - 1]))
         lhs = np.dot(a, V)
         rhs = V * W[np.newaxis, :]
         for idx in np.ndindex(n, n):
@@ -351,24 +354,22 @@ def CASES(tier, seed):
         if tier == 'quick' and n == 3:
             pairs = [(a, b) for a in (None, 2) for b in (None, 2, 3)]
         if n == 4:
-            pairs = [(a, b) for a in (None, 2, 3) for b in (None, 2, 4)]
+            pairs = [(None, None), (2, 2), (3, 2)]
         for chi_max, chi_min in pairs:
             for use in itertools.product([False, True], repeat=3):
                 if tier == 'quick' and n == 3 and sum(use) == 3:
                     continue  # the full option set for n=3 takes minutes per case: thorough tier
                 if tier == 'quick' and n == 3 and use[1] and (chi_max, chi_min) not in ((None, None), (2, 2)):
                     continue  # trunc_cut makes the queries non-linear (sums of squares): two chi settings in quick
-                if n == 4 and sum(use) == 3 and (chi_max, chi_min) != (2, 2):
-                    continue
+                if tier == 'thorough' and n == 3 and use[1] and (chi_max, chi_min) not in (
+                        (None, None), (2, 2), (1, None), (None, 3), (2, 1), (3, 3)):
+                    continue  # thorough: trunc_cut for six chi settings (each such case costs ~5 core-minutes)
+                if n == 4 and use[1] and ((chi_max, chi_min) != (None, None) or use[0] or use[2]):
+                    continue  # n=4: trunc_cut only alone and without chi constraints
                 p = dict(n=n, chi_max=chi_max, chi_min=chi_min, use_svd_min=use[0], use_trunc_cut=use[1], use_deg=use[2])
                 cases.append(
                     dict(name=f"truncate[n={n},chi_max={chi_max},chi_min={chi_min},svd_min={use[0]},trunc_cut={use[1]},deg={use[2]}]",
                          fn='truncate_case', params=p,
-                         opts=dict(max_paths=200000, max_wall_s=3000 if tier == 'thorough' else 500, validate_paths=2,
-                                   hard_timeout_s=3400 if tier == 'thorough' else 700)))
-    if tier == 'thorough':
-        for use in itertools.product([False, True], repeat=3):
-            p = dict(n=5, chi_max=3, chi_min=2, use_svd_min=use[0], use_trunc_cut=use[1], use_deg=use[2])
-            cases.append(dict(name=f"truncate[n=5,chi_max=3,chi_min=2,{use}]", fn='truncate_case', params=p,
-                              opts=dict(max_paths=400000, max_wall_s=3000, validate_paths=2, hard_timeout_s=3400)))
+                         opts=dict(max_paths=400000, max_wall_s=2400 if tier == 'thorough' else 500, validate_paths=2,
+                                   hard_timeout_s=2700 if tier == 'thorough' else 700)))
     return cases
